@@ -13,7 +13,7 @@
    (C02_group_counts), one count per distinct atom set
    (C02_descriptor_sets_cover, _once), remaps as linear substitutions (C02_remaps_linear). *)
 From Coq Require Import List NArith ZArith QArith Arith Bool.
-From PG Require Import Common.Strs Graph.Mol Graph.Match Graph.Scheme Graph.SchemeLoad Graph.Scheme_proofs Graph.Centres_proofs Graph.Remap_proofs Gen.Schemes.
+From PG Require Import Common.Strs Graph.Mol Graph.Match Graph.Scheme Graph.SchemeLoad Graph.Scheme_proofs Graph.Centres_proofs Graph.Remap_proofs Graph.Descr_equiv Gen.Schemes.
 Import ListNotations.
 
 (* every pattern and correction descriptor of every shipped scheme is readable
@@ -93,3 +93,22 @@ Theorem C02_dict_add_get : forall d k v k',
   dict_get (dict_add d k v) k' == (if str_eqb k k' then dict_get d k' + v else dict_get d k').
 Proof. exact dict_add_get. Qed.
 Print Assumptions C02_dict_add_get.
+
+(* ---------- the whole decomposition in one statement ---------- *)
+(* dterm m k ds = the number of distinct matched atom sets of descriptor ds in m if ds is named k, else 0 *)
+Theorem C02_decomposition_spec : forall sch sssr m0 d, chain_free (s_remaps sch) -> get_descriptors sch sssr m0 = SOk d ->
+  let m := aromatize sssr m0 in
+  exists nm,
+    assign_centres sch m = SOk nm /\ length nm = natom m
+    /\ (forall a, (a < natom m)%nat -> exists p, hit_list m (s_patterns sch) a = [p] /\ nth_error nm a = Some (p_center p, p_periph p))
+    /\ (forall k, dict_get (raw_groups m nm) k == fold_right (fun i s => occ k (group_of m nm i) + s) 0 (seq 0 (natom m)))
+    /\ (forall k, dict_get (raw_descr sch m) k == fold_right (fun ds s => dterm m k ds + s) 0 (s_descr sch))
+    /\ (forall k, let G := apply_remaps (s_remaps sch) (raw_groups m nm) in
+                  let D := apply_remaps (s_remaps sch) (raw_descr sch m) in
+                  dict_get d k == (if has_key D k then dict_get D k else dict_get G k))
+    /\ (forall raw, NoDup (map fst raw) -> forall k,
+          dict_get (apply_remaps (s_remaps sch) raw) k
+          == (if src (s_remaps sch) k && memk k (map fst raw) then 0 else dict_get raw k)
+             + fold_right (fun s t => term (s_remaps sch) raw s k + t) 0 (map fst raw)).
+Proof. exact decomposition_spec. Qed.
+Print Assumptions C02_decomposition_spec.
